@@ -1473,9 +1473,12 @@ class SetItems(StackSliceOpcode):
         for key, value in zip(stack_slice[::2], stack_slice[1::2]):
             update_dict_keys.append(key)
             update_dict_values.append(value)
-        if isinstance(pydict, ast.Dict) and not pydict.keys:
-            # the dict is empty, so add a new one
-            interpreter.stack.append(ast.Dict(keys=update_dict_keys, values=update_dict_values))
+        if isinstance(pydict, ast.Dict):
+            # extend the dict display in place (like APPENDS does for lists) so that memoised
+            # references to the same dict keep seeing its items
+            pydict.keys.extend(update_dict_keys)
+            pydict.values.extend(update_dict_values)
+            interpreter.stack.append(pydict)
         else:
             dict_name = interpreter.new_variable(pydict)
             update_dict = ast.Dict(keys=update_dict_keys, values=update_dict_values)
@@ -1498,9 +1501,12 @@ class SetItem(Opcode):
         value = interpreter.stack.pop()
         key = interpreter.stack.pop()
         pydict = interpreter.stack.pop()
-        if isinstance(pydict, ast.Dict) and not pydict.keys:
-            # the dict is empty, so add a new one
-            interpreter.stack.append(ast.Dict(keys=[key], values=[value]))
+        if isinstance(pydict, ast.Dict):
+            # extend the dict display in place (like APPEND does for lists) so that memoised
+            # references to the same dict keep seeing its items
+            pydict.keys.append(key)
+            pydict.values.append(value)
+            interpreter.stack.append(pydict)
         else:
             dict_name = interpreter.new_variable(pydict)
             assignment = ast.Assign(
